@@ -20,6 +20,10 @@ type DryStat struct {
 	Want   string `json:"want"`   // canonical result of the operation
 	Later  string `json:"later"`  // canonical result of the follow-up
 	Err    string `json:"err,omitempty"`
+	// CmdAt (scenarios with an implicit privilege change): offset within S at which the echo of
+	// the user's own command starts, i.e. the implicit privilege change is complete once CmdAt
+	// bytes of the exchange were delivered. -1 if not applicable.
+	CmdAt int `json:"cmd_at"`
 }
 
 // DryRun runs the scenario on a healthy connection.
@@ -52,6 +56,17 @@ func DryRun(sc *Scenario) (st DryStat) {
 	s.Conn.Do(func() { st.S = s.Conn.Generated() - st.Base })
 	st.Writes = s.Conn.Writes() - w0
 	st.Want = res
+	st.CmdAt = -1
+	if sc.PrivErrOK && s.CLI != nil {
+		s.Conn.Do(func() {
+			for i, l := range s.CLI.Lines {
+				if l.Line == sc.UserCmd && i < len(s.CLI.Spans) && s.CLI.Spans[i].EchoS >= st.Base {
+					st.CmdAt = s.CLI.Spans[i].EchoS - st.Base
+					break
+				}
+			}
+		})
+	}
 	if sc.Later != nil {
 		lr, err := sc.Later(s)
 		if err != nil {
